@@ -117,6 +117,12 @@ def scenarios(tier: str) -> list[tuple]:
                 if a.startswith("get_") and b.startswith("get_"):
                     continue
                 out.append((cfg, ((a,), (b,)), 2 if tier == "quick" else 3))
+        # a rejected call (duplicate study / write to a finished trial) followed by more records:
+        # the issuer's replay raises mid-batch and must still consume the records behind it
+        rej = [(("create_study", "create_trial"), ("create_study", "get_all_trials")),
+               (("finish", "create_trial"), ("finish", "get_n_trials"))]
+        for p in (rej if (tier == "thorough" or cfg.endswith("sym")) else []):
+            out.append((cfg, p, 2))
         if tier == "thorough":
             out.append((cfg, (("create_trial", "user_attr"), ("create_trial", "finish")), 2))
             out.append((cfg, (("claim",), ("claim",), ("claim",)), 2))
@@ -161,7 +167,10 @@ def scenario_task(task: tuple) -> dict:
             if (ex2["hist"], ex2["final"]) != (ex["hist"], ex["final"]):
                 raise InternalError(f"replaying one schedule twice differed: {cfg} {names}")
             first["done"] = True
-        sig = (tuple(sorted((ti, k, r) for ti, k, _, _, r in ex["hist"])), ex["final"])
+        # the oracle's verdict depends on the results, the final state AND the real-time order of the
+        # calls (who had returned before whom was invoked): all three are in the memo key
+        before = tuple(sorted((a[0], a[1], b[0], b[1]) for a in ex["hist"] for b in ex["hist"] if a[3] < b[2]))
+        sig = (tuple(sorted((ti, k, r) for ti, k, _, _, r in ex["hist"])), ex["final"], before)
         new = sig not in outcomes
         outcomes.add(sig)
         rep = {"engine": engine, "config": cfg, "programs": names, "schedule": ch.choices,
@@ -182,7 +191,7 @@ def scenario_task(task: tuple) -> dict:
     if st["capped"]:
         part.add("caps_hit")
     part.add("scenarios")
-    part.add("states", len(outcomes))  # distinct observable outcomes
+    part.add("states", len({o[:2] for o in outcomes}))  # distinct observable outcomes
     part.add("traces_validated_against_impl", len(sc._seq_cache))
     if len(outcomes) == 1 and len({n for p in names for n in p} & {"get_trial", "get_n_trials", "get_best", "get_all_trials", "get_waiting"}) == 0 and names[0] != names[1 % len(names)]:
         part.note(f"single outcome for {cfg} {names}")
